@@ -189,7 +189,9 @@ Init == /\ circ = <<[New(PNu) EXCEPT !.ops = ParentOps(PNu)], [New(TNu[1]) EXCEP
         /\ op = "init"
 
 NAdds == Len(SelectSeq(prog, LAMBDA e : e[2] = "add"))
-StageOf(name, t) == IF name = "herald" THEN (IF t = 3 THEN 1 ELSE 2) ELSE IF name = "add" THEN (IF t = 1 THEN 4 ELSE 3) ELSE 5
+\* canonical order: heralds on 3; then heralds on 2 and additions into 2 in ANY order (a herald declared on a circuit that already owns an
+\* ancilla goes through _map_mode); then additions into the parent; then the probes
+StageOf(name, t) == IF name = "herald" THEN (IF t = 3 THEN 1 ELSE 2) ELSE IF name = "add" THEN (IF t = 1 THEN 4 ELSE 2) ELSE 5
 StageOk(name, t) == IF Len(prog) = 0 THEN TRUE ELSE StageOf(prog[Len(prog)][2], prog[Len(prog)][3]) <= StageOf(name, t)
 Step(t, name, args, a2, c2, g2) ==
    /\ Len(prog) < MaxLen /\ StageOk(name, t)
